@@ -200,6 +200,11 @@ func runC15(cfg *vh.Config) error {
 					fail(fmt.Sprintf("C15 SchemaSetFromFiles / ToJ5Root -> %s in %s: %s", o.Class, o.Site, normMsg(o.Msg)), "exporting the reflected schemas", o.Msg)
 				}
 				for _, v := range o.Viol {
+					if rest, ok := strings.CutPrefix(v, "export-coverage: "); ok {
+						what, _, _ := strings.Cut(rest, " | ")
+						fail("C15 the export carries a field the model of the source form does not cover: "+what, "nothing is lost in the round trip (every exported field must be part of the checked form)", v)
+						continue
+					}
 					fail("C15 the export of a reflected schema differs from the schema object (member lost or changed by ToJ5Root / ToJ5Field)", "no rule, enum option info, entity marker, any-membership or list rule is lost", v)
 				}
 			case "import":
